@@ -122,6 +122,47 @@ theorem readPackets_step (e : EnumDef) (fuel : Nat) (c i : UInt8) (body rest : B
   | error er => simp; omega
   | ok kv => obtain ⟨k, v⟩ := kv; simp; omega
 
+/-! ### k packets -/
+
+/-- what the writer emits for a packet with control field `c i` and the given body. -/
+def frameOf (pk : UInt8 × UInt8 × Bytes) : Bytes :=
+  match LenKind.adpu.ser pk.2.2.length with
+  | .ok p => pk.1 :: pk.2.1 :: (p ++ pk.2.2)
+  | .error _ => []
+
+/-- what one `read_packet::<T>()` must return for that packet. -/
+def outcomeOf (e : EnumDef) (pk : UInt8 × UInt8 × Bytes) : PktOutcome :=
+  match parseEnum e (frameOf pk) with
+  | .ok (k, v) => .ok k v (frameOf pk).length
+  | .error er => .zvtErr er (frameOf pk).length
+
+/-- **Any number of packets.** The concatenation of the frames of `k` packets (bodies of any length up to
+65535, short and extended headers mixed) followed by `tail` is read as exactly those `k` packets, in order,
+each read consuming exactly its own frame, and reading continues on `tail` untouched. -/
+theorem readPackets_many (e : EnumDef) : ∀ (pks : List (UInt8 × UInt8 × Bytes)) (fuel : Nat) (tail : Bytes),
+    (∀ pk ∈ pks, pk.2.2.length ≤ 65535) →
+    readPackets e (pks.length + fuel) ((pks.map frameOf).flatten ++ tail) =
+      pks.map (outcomeOf e) ++ readPackets e fuel tail := by
+  intro pks
+  induction pks with
+  | nil => intro fuel tail _; simp
+  | cons pk pks ih =>
+    intro fuel tail h
+    obtain ⟨c, i, body⟩ := pk
+    have hb : body.length ≤ 65535 := h (c, i, body) (by simp)
+    obtain ⟨p, hp, hstep⟩ := readPackets_step e (pks.length + fuel) c i body ((pks.map frameOf).flatten ++ tail) hb
+    have hfr : frameOf (c, i, body) = c :: i :: (p ++ body) := by simp [frameOf, hp]
+    have hlen : (pks.length + 1) + fuel = (pks.length + fuel) + 1 := by omega
+    simp only [List.map_cons, List.flatten_cons, List.length_cons, List.cons_append]
+    rw [hlen, hfr]
+    have e1 : c :: i :: (p ++ body) ++ ((pks.map frameOf).flatten ++ tail) =
+        c :: i :: (p ++ body ++ ((pks.map frameOf).flatten ++ tail)) := by simp
+    rw [List.append_assoc, e1, hstep, ih fuel tail (fun q hq => h q (by simp [hq]))]
+    simp only [outcomeOf, hfr]
+    cases parseEnum e (c :: i :: (p ++ body)) with
+    | error er => simp; omega
+    | ok kv => obtain ⟨k, v⟩ := kv; simp; omega
+
 /-- non-vacuity: two packets and a dangling byte. -/
 example : (readPackets Generated.io_Ack 5 [0x80, 0, 0, 0x80, 0, 0, 0x80]).length = 3 := by decide +kernel
 
